@@ -38,7 +38,7 @@ type Spec struct {
 	CostMs     int      // rough wall cost per case (driver sizes batches with it)
 	Clauses    []string // oracle clauses that must have judged something at least once per run
 	Exhaustive bool     // the unit enumerates a finite space completely
-	WallS      int      // per-case wall-clock watchdog (default 180 s); firing = inconclusive
+	WallS      int      // per-case wall-clock watchdog (default 120 s); firing = inconclusive
 }
 
 // Violation is one refuted oracle clause.
@@ -136,7 +136,7 @@ func writeInflight(s *Spec, idx int) {
 // Run executes this batch's share of the unit's cases.
 func Run(t *testing.T, spec Spec, body func(c *Case)) {
 	if spec.WallS == 0 {
-		spec.WallS = 180
+		spec.WallS = 120
 	}
 	if os.Getenv("VERIF_DESCRIBE") != "" {
 		emit(map[string]any{"type": "spec", "prop": spec.Prop, "unit": spec.Unit, "quick": spec.Quick,
